@@ -194,6 +194,18 @@ pub fn prefix_sig(prefix: &str, v: Verdict, shape: &str) -> Verdict {
     }
 }
 
+/// like diff_verdict, but the sign of zero must survive too (Zinc: the property names -0 explicitly)
+pub fn diff_verdict_strict_zero(prefix: &str, orig: &RVal, back: &RVal, text: &str, rec: &mut Rec) -> Verdict {
+    let di = diff(orig, back);
+    if di.diffs.is_empty() && di.zero_sign > 0 {
+        return Verdict::fail(
+            format!("{prefix}:diff:number:sign-of-zero:{}", shape(orig)),
+            format!("the sign of a zero changed (-0 and +0 are different f64 values) (text {:?})", trunc(text, 300)),
+        );
+    }
+    diff_verdict(prefix, orig, back, text, rec)
+}
+
 pub fn diff_verdict(prefix: &str, orig: &RVal, back: &RVal, text: &str, rec: &mut Rec) -> Verdict {
     let di = diff(orig, back);
     rec.class_n("info:zero-sign-changed", di.zero_sign);
